@@ -119,7 +119,10 @@ func direct(s *replica.Server, action, body string) (err error, known bool) {
 // doAction, replica/client post) judges every management step of a promotion, a snapshot, a resize or a revert by
 // that status alone.
 func runStatusAgreement(res *vk.Result, seed uint64, scratch string, j *os.File, worker int) {
-	for _, state := range []string{"closed", "open", "dirty", "rebuilding", "reverted"} {
+	// the states are spread over workers 1-4 (building a closed or reopened replica waits a second for the hole
+	// puncher's drain, twice per cell)
+	share := map[int][]string{1: {"closed"}, 2: {"open"}, 3: {"dirty", "rebuilding"}, 4: {"reverted"}}
+	for _, state := range share[worker] {
 		probe, err := NewRepTarget(state, filepath.Join(scratch, "agA"), vk.NewRand(vk.Mix(seed, "agree", state)))
 		if err != nil {
 			res.Inconclusive = append(res.Inconclusive, err.Error())
@@ -166,8 +169,7 @@ func runStatusAgreement(res *vk.Result, seed uint64, scratch string, j *os.File,
 					}
 				}
 			}
-			a.S.Close()
-			b.S.Close()
+			// (no Close: it waits a second for the hole puncher's drain; the files go with the directories)
 			os.RemoveAll(a.Dir)
 			os.RemoveAll(b.Dir)
 		}
